@@ -1191,12 +1191,10 @@ impl<'ast, 'res> Resolver<'ast, 'res> {
                             Some(ValueType::String)
                         }
                         (ValueType::Number, ValueType::Number) => Some(ValueType::Number),
+                        // Neither operand is a string here, so the result is a number or a
+                        // string depending on the run-time value of the dynamic operand.
                         (ValueType::Dynamic, ..) | (.., ValueType::Dynamic) => {
-                            if l == ValueType::Number || r == ValueType::Number {
-                                Some(ValueType::Number)
-                            } else {
-                                Some(ValueType::String)
-                            }
+                            Some(ValueType::Dynamic)
                         }
                         _ => None,
                     },
